@@ -1,7 +1,9 @@
 """C12 - replay log.  Generators for the correspondence run (real ApiListener vs extracted model)."""
-import random
+import os, re, hashlib, random
 
 PID = 'C12'
+# the search for a failing input after a broken proof / correspondence is capped (brief C12b): one targeted round first (see generate)
+os.environ.setdefault('VERIF_SEARCH_S', '60')
 HEADER = []
 T0 = 2000000000
 RULE = ('random histories of relay (strictly increasing whole-second virtual times; secobj in every zone of a 6-zone tree, zone objects, none) / '
@@ -12,11 +14,15 @@ RULE = ('random histories of relay (strictly increasing whole-second virtual tim
         'size-boundaries: one entry of an exact byte length 64 KiB-1/64 KiB/64 KiB+1, 1 MiB-1/1 MiB/1 MiB+1, 4 MiB (thorough: 4095..4097, 8192, 9999/10000, 99999/100000, 128 KiB+-1, 999999/1000000, 2 MiB, 4 MiB+-1, 9999999/10000000; payload bytes x, quote, backslash), '
         'or ending at an exact file offset k*64 KiB, placed first / in the middle / last in a rotated file or in current, small entries around it and in the other file, optional acknowledgement + clean-up + second outage; '
         'big-history: random histories with several entries of 4 KiB .. 1.1 MiB (thorough .. 4 MiB); big-truncate: a file cut right before / inside / right after a large entry; '
-        'nonmonotone-clock: relays within one clock reading and with the clock stepped back by 1 s .. 1 h, rotations in the same second and right after the step, acknowledgement + clean-up. '
+        'nonmonotone-clock: relays within one clock reading and with the clock stepped back by 1 s .. 1 h, rotations in the same second and right after the step, acknowledgement + clean-up; '
+        'two-endpoint-zones: the two endpoints of a child zone (a1, a2) or one of them and the HA peer of the local zone (m2), both away while 1-3 events for the zone are logged, one returns and is replayed to, '
+        '1-4 steps of messages ARRIVING from the returned endpoint / from the HA peer with an originZone member (MessageHandler -> handler -> SyncRelayMessage with that origin), local relays, clean-up, rotation, disconnect/reconnect, '
+        'restart, then the other returns; GetConnected/GetLocalLogPosition of all 6 endpoints observed before and after every relay (local or arriving); 5 % of the steps of random-history are arriving messages as well. '
         'non-trivial = at least one persisted event and one replay that delivered something; distinct = distinct script text')
 TRUSTED = ['model: coq/Replay/RlBytes.v, RlModel.v (transcription of ApiListener::PersistMessage/RotateLogFile/OpenLogFile/ReplayLog/ApiTimerHandler/'
            'SyncRelayMessage/RelayMessageOne, JsonRpcConnection::MessageHandler timestamp filter, SetLogPositionHandler, NetString::ReadStringFromStream); '
-           'RlCompact.v is PROVED to refine it (C12_record_model_*), so it adds nothing here',
+           'RlCompact.v is PROVED to refine it (C12_record_model_*), so it adds nothing here; RlOrigin.v: the origin tests of RelayMessageOne and the origin MessageHandler builds '
+           '(its endpoint loop is PROVED equal to the loop translated from /repo on every run: C12_src_relay_endpoint_iter_origin_model)',
            'log entry payload: tiny concrete encoding = the bytes JsonEncode emits for PersistMessage\'s dictionary; strict decoder for that shape only '
            '(JsonDecode accepts more; the generator keeps corrupting bytes to values on which both agree, see notes/C12.md)',
            'tools/facts_c12.py: recognisers of the size limits (netstring reader digits / colon window / maxMessageLength test, what ReplayLog passes, what PersistMessage writes) and of the forms of ReplayLog/RotateLogFile',
@@ -25,7 +31,8 @@ ASSUMPTIONS = ['the sender\'s clock advances before every relay (rl_hclocked, pr
                'every persisted entry is shorter than 10^9 bytes and has a timestamp below 10^15 s (rl_hsized over the regenerated limits; necessary: C12_read_limit_hides); the run covers entries up to 16 MiB',
                'no event is relayed while the peer is syncing (statement speaks about disconnected peers)',
                'StreamReadContext::FillFromStream delivers the whole file over successive calls (whole-file buffer in the model); exercised with files up to 16 MiB and frames ending at 4 KiB / 64 KiB chunk boundaries',
-               'the local endpoint is the zone master and messages are locally generated (origin = null)']
+               'the local endpoint is the routing master of its zone (the configuration of the harness: its name sorts first); messages are locally generated or arrive from a connected endpoint '
+               '(origin = that endpoint, origin zone = its zone, or for the HA peer the zone its originZone member names)']
 
 SECS = ['-', 'op', 'om', 'oa', 'ob', 'oc', 'og', 'za', 'zb', 'zm', 'zg', 'oa', 'ob', 'om']
 DURS = [0, -1, 30, 600, 3600, 86400, 86400, 600]
@@ -75,14 +82,117 @@ def gen_history(rnd, n):
             e = rnd.choice(sorted(conn)) if conn and rnd.random() < 0.8 else rnd.randint(1, 6)
             p = rnd.choice(stamps) + rnd.choice((0, 0, 1, -1, 2))
             lines += ['rl_ack e=%d p=%d' % (e, p), 'rl_ls']
-        elif r < 0.90:
+        elif r < 0.88:
             e = rnd.choice(sorted(conn)) if conn and rnd.random() < 0.8 else rnd.randint(1, 6)
             ts = rnd.choice(stamps) + rnd.choice((0, 0, 1, -1, 7))
             lines += ['rl_ls', 'rl_recv e=%d ts=%d' % (e, ts), 'rl_ls']
+        elif r < 0.93:
+            # a message arrives from an endpoint and is relayed on (it stamps an event: the clock advances first)
+            e = rnd.choice(sorted(conn)) if conn and rnd.random() < 0.9 else rnd.randint(1, 6)
+            t += rnd.choice((1, 1, 2, 5))
+            mid += 1
+            ts = t if rnd.random() < 0.8 else rnd.choice(stamps) + rnd.choice((0, 1, -1))
+            oz = ' oz=' + rnd.choice(FROM_OZ) if e == 1 and rnd.random() < 0.7 else ''
+            lines += ['now %d' % t, 'rl_from e=%d ts=%d sec=%s id=%d%s' % (e, ts, rnd.choice(SECS), mid, oz), 'rl_ls']
+            stamps.append(t)
         else:
             t += rnd.choice((0, 5, 10, 40, 700, 4000))
             lines += ['now %d' % t, 'rl_ls', 'rl_timer', 'rl_ls']
     return lines
+
+
+FROM_OZ = ['za', 'za', 'zb', 'zp', 'zm', 'zc', 'zg']
+
+
+def gen_two_endpoint(rnd, cases, n):
+    """two-endpoint-zones (brief C12b): zone za has the endpoints a1 (3) and a2 (4), the local zone has the HA peer m2 (1).
+    Both endpoints of a pair are away while events for their zone are logged; one returns and is replayed to; messages
+    ARRIVE from the returned one (relay with origin = that endpoint / its zone) and from the HA peer (originZone member)
+    while the other is still away; acknowledgements, clean-up, rotations, a restart in between; then the other returns.
+    Observed: every endpoint's position before/after each arriving message, and what each returning endpoint is replayed."""
+    for k in range(n):
+        t = T0
+        durs = [rnd.choice((86400, 86400, 3600, 600, -1)) for _ in range(6)]
+        if rnd.random() < 0.1:
+            durs[rnd.choice((0, 2, 3))] = 0
+        lines = ['now %d' % t, 'rl_init dur=' + ','.join(map(str, durs))]
+        mid = 0
+        stamps = []
+        pair = rnd.choice(((3, 4), (4, 3), (3, 4), (4, 3), (1, 3), (1, 4), (3, 1), (4, 1)))    # (first back, second back)
+        first, second = pair
+        secs_pair = ('oa', 'oa', 'za', 'oc', 'om', '-', 'og', 'zm', 'ob')
+
+        def relay(cnt):
+            nonlocal t, mid, lines
+            for _ in range(cnt):
+                t += rnd.choice((1, 1, 2, 7))
+                mid += 1
+                lines += ['now %d' % t, 'rl_relay sec=%s id=%d' % (rnd.choice(secs_pair), mid)]
+                stamps.append(t)
+
+        def arrive(e, cnt):
+            nonlocal t, mid, lines
+            for _ in range(cnt):
+                t += rnd.choice((1, 1, 2, 5))
+                mid += 1
+                ts = t if rnd.random() < 0.85 else rnd.choice(stamps or [t]) + rnd.choice((0, -1, 1))
+                oz = ''
+                if e == 1 and rnd.random() < 0.75:
+                    oz = ' oz=' + rnd.choice(FROM_OZ)
+                lines += ['now %d' % t, 'rl_from e=%d ts=%d sec=%s id=%d%s' % (e, ts, rnd.choice(secs_pair), mid, oz)]
+                stamps.append(t)
+                if rnd.random() < 0.3:
+                    lines += ['rl_ls']
+
+        # sometimes a third party is connected all along (parent p1, the HA peer, the other child zone)
+        for e in rnd.sample((1, 2, 5), rnd.choice((0, 0, 1, 2))):
+            if e not in pair:
+                lines += ['rl_conn e=%d' % e]
+        # both away, events for the zone are logged
+        relay(rnd.choice((1, 2, 3)))
+        if rnd.random() < 0.25:
+            t += 2
+            lines += ['now %d' % t, 'rl_rotate']
+            relay(rnd.choice((0, 1, 2)))
+        # the first one returns and is replayed to
+        t += rnd.choice((1, 3, 15))
+        lines += ['now %d' % t] + (['rl_ls'] if rnd.random() < 0.5 else []) + ['rl_conn e=%d' % first] + (['rl_ls'] if rnd.random() < 0.5 else [])
+        if rnd.random() < 0.4:
+            lines += ['rl_ack e=%d p=%d' % (first, rnd.choice(stamps) + rnd.choice((0, 0, 1)))]
+        # ... and sends us messages while the second is still away; the HA peer may forward some as well
+        steps = rnd.choice((1, 2, 3, 4))
+        for _ in range(steps):
+            r = rnd.random()
+            if r < 0.6:
+                arrive(first, rnd.choice((1, 1, 2)))
+            elif r < 0.75:
+                relay(1)
+            elif r < 0.85 and 1 not in pair:
+                lines += ['rl_conn e=1']
+                arrive(1, rnd.choice((1, 2)))
+            elif r < 0.92:
+                t += rnd.choice((5, 40, 700))
+                lines += ['now %d' % t, 'rl_ls', 'rl_timer', 'rl_ls']
+            elif r < 0.96:
+                t += 1
+                lines += ['now %d' % t, 'rl_rotate']
+            else:
+                lines += ['rl_disc e=%d' % first]
+                relay(1)
+                t += 1
+                lines += ['now %d' % t, 'rl_conn e=%d' % first]
+        if rnd.random() < 0.08:
+            t += 1
+            lines += ['now %d' % t, 'rl_restart clean=%d' % rnd.randint(0, 1)]
+        elif rnd.random() < 0.2:
+            lines += ['rl_disc e=%d' % first]
+        # the second one returns: it is owed everything above the position IT confirmed
+        t += rnd.choice((1, 2, 10))
+        lines += ['now %d' % t] + (['rl_ls'] if rnd.random() < 0.4 else []) + ['rl_conn e=%d' % second, 'rl_ls']
+        if rnd.random() < 0.3:
+            arrive(second, 1)
+            lines += ['rl_ls']
+        cases.append({'lines': lines, 'tags': {'family': 'two-endpoint-zones', 'pair': '%d-%d' % pair}})
 
 
 def small_log(rnd, n1, n2, durs='3600,3600,3600,3600,3600,3600'):
@@ -468,10 +578,64 @@ def gen_nonmonotone(rnd, cases, n):
         cases.append({'lines': lines, 'tags': {'family': 'nonmonotone-clock'}})
 
 
+FACT_PINS = {
+    # sha1 of the comment-stripped text of the regenerated fact files for the pinned source (which areas a changed fact concerns)
+    'Facts_fn_relay.v': ('relay', None),
+    'Facts_c12.v': ('limits', None),
+    'Facts_fn_replay.v': ('replay', None),
+}
+FAMILY_AREA = {'two-endpoint-zones': 'relay', 'random-history': 'relay', 'size-boundaries': 'limits', 'big-history': 'limits', 'big-truncate': 'limits',
+               'mirror-setlogposition': 'replay', 'nonmonotone-clock': 'replay', 'truncate-every-offset': 'replay', 'corrupt-sampled': 'replay',
+               'corrupt-any-byte': 'replay'}
+
+
+PINS_FILE = os.path.join(os.path.dirname(os.path.abspath(__file__)), 'p_c12_pins.json')
+
+
+def fact_digest(name):
+    try:
+        from . import core
+        txt = open(os.path.join(core.COQ, 'Facts', name)).read()
+    except Exception:
+        return None
+    txt = re.sub(r'\(\*.*?\*\)', '', txt, flags=re.S)
+    return hashlib.sha1(' '.join(txt.split()).encode()).hexdigest()
+
+
+def changed_areas():
+    """areas of the model whose regenerated source facts differ from the forms pinned in vlib/p_c12_pins.json
+    (written by `python3 -m vlib.p_c12 --pin` on the unchanged tree; a stale pin only changes the ORDER of the search population)"""
+    import json
+    try:
+        pins = json.load(open(PINS_FILE))
+    except Exception:
+        return set()
+    ch = set()
+    for name, (area, _) in FACT_PINS.items():
+        d = fact_digest(name)
+        if d is not None and name in pins and pins[name] != d:
+            ch.add(area)
+    return ch
+
+
 def generate(seed, tier):
     rnd = random.Random(seed)
     cases = []
-    nh = {'quick': 1500, 'thorough': 12000, 'search': 3000}.get(tier, 1500)
+    if tier == 'search' and seed // 1000 == 1:
+        # first round of the capped search after a broken proof / correspondence: a small targeted population, the families that
+        # concern the area whose source facts changed first (a few seconds instead of a full round)
+        gen_two_endpoint(rnd, cases, 300)
+        gen_sizes(rnd, cases, 'quick')
+        gen_mirror(rnd, cases, 100)
+        gen_nonmonotone(rnd, cases, 100)
+        gen_big_trunc(rnd, cases, 10)
+        for i in range(300):
+            cases.append({'lines': gen_history(rnd, rnd.choice((8, 15, 30))), 'tags': {'family': 'random-history'}})
+        ch = changed_areas()
+        cases.sort(key=lambda c: 0 if FAMILY_AREA.get(c['tags']['family']) in ch else 1)    # stable: generation order otherwise
+        return cases
+    gen_two_endpoint(rnd, cases, {'quick': 300, 'thorough': 3000, 'search': 600}.get(tier, 300))
+    nh = {'quick': 1500, 'thorough': 12000, 'search': 2000}.get(tier, 1500)
     for i in range(nh):
         cases.append({'lines': gen_history(rnd, rnd.choice((8, 15, 30, 60))), 'tags': {'family': 'random-history'}})
     gen_trunc(rnd, cases, {'quick': 3, 'thorough': 20, 'search': 4}.get(tier, 3))
@@ -504,7 +668,9 @@ def keep_line(l):
 def extra_stats(cases, impl):
     st = {'persisted': 0, 'not_persisted': 0, 'replays': 0, 'replayed_messages': 0, 'setlogposition_in_replay': 0, 'truncations': 0, 'corruptions': 0,
           'relays_with_pad': 0, 'largest_pad': 0, 'pads_ge_64KiB': 0, 'pads_ge_1MiB': 0, 'largest_replayed_message': 0, 'replayed_messages_ge_1MiB': 0,
-          'largest_log_file': 0, 'size_boundary_targets': {}, 'nonmonotone_relays': 0}
+          'largest_log_file': 0, 'size_boundary_targets': {}, 'nonmonotone_relays': 0,
+          'arriving_messages': 0, 'arriving_accepted': 0, 'arriving_persisted': 0, 'arriving_with_originZone': 0, 'arriving_while_zone_mate_away': 0,
+          'relays_moving_a_connected_position': 0, 'two_endpoint_pairs': {}}
     for c in cases:
         last = None
         tnow = None
@@ -526,10 +692,26 @@ def extra_stats(cases, impl):
                     if n >= 65536 - 400: st['pads_ge_64KiB'] += 1
                     if n >= 1048576 - 400: st['pads_ge_1MiB'] += 1
         tg = c.get('tags', {})
+        if tg.get('family') == 'two-endpoint-zones':
+            st['two_endpoint_pairs'][tg['pair']] = st['two_endpoint_pairs'].get(tg['pair'], 0) + 1
+        for l in c['lines']:
+            if l.startswith('rl_from') and ' oz=' in l:
+                st['arriving_with_originZone'] += 1
         if tg.get('family') == 'size-boundaries':
             k = '%s:%d' % (tg['mode'], tg['size'])
             st['size_boundary_targets'][k] = st['size_boundary_targets'].get(k, 0) + 1
         for l in impl.get(c['id'], []):
+            if l.startswith('rl_relay') or l.startswith('rl_from'):
+                tk = dict(x.split('=', 1) for x in l.split()[1:] if '=' in x)
+                if tk.get('pos0') != tk.get('pos'):
+                    st['relays_moving_a_connected_position'] += 1
+                if l.startswith('rl_from'):
+                    st['arriving_messages'] += 1
+                    st['arriving_accepted'] += tk.get('accepted') == '1'
+                    st['arriving_persisted'] += tk.get('logged') == '1'
+                    cn = tk.get('conn', '')
+                    if len(cn) >= 4 and tk.get('e') in ('3', '4') and cn[2:4] in ('10', '01'):
+                        st['arriving_while_zone_mate_away'] += 1
             if l.startswith('rl_relay logged=1'): st['persisted'] += 1
             elif l.startswith('rl_relay'): st['not_persisted'] += 1
             elif l.startswith('rl_conn'):
@@ -551,3 +733,12 @@ def extra_stats(cases, impl):
                         st['largest_log_file'] = max(st['largest_log_file'], int(f.split(':')[1]))
                 st['largest_log_file'] = max(st['largest_log_file'], int(l.split(' cur=')[1].split()[0]))
     return st
+
+
+if __name__ == '__main__':
+    import sys, json
+    if '--pin' in sys.argv:
+        json.dump({n: fact_digest(n) for n in FACT_PINS}, open(PINS_FILE, 'w'), indent=1, sort_keys=True)
+        print(open(PINS_FILE).read())
+    else:
+        print(sorted(changed_areas()))
